@@ -4,12 +4,14 @@
 -/
 import SnowModel.Ops.OpCond
 import SnowModel.Ops.Simpson
+import SnowModel.Ops.Snowing2D
 
 open Lean Snow
 
 def allOps : List (String × Op) :=
   Snow.Ops.opCondOps
   ++ Snow.Ops.simpsonOps
+  ++ Snow.Ops.snowing2DOps
 
 def handle (line : String) : String :=
   match Json.parse line with
